@@ -141,7 +141,16 @@ def get_max_angle(
     _, ang_max = config.scales.scales.get_angle_radian(
         min_redshift, cosmology=config.cosmology
     )
-    return AngularDistances(ang_max.max())
+    max_angle = ang_max.max()
+    # pairs are counted at the angles computed at the bin centers, which can be
+    # larger (bins below the redshift limit, physical scales beyond the turnover
+    # of the angular diameter distance)
+    for redshift in config.binning.binning.mids:
+        _, ang_max = config.scales.scales.get_angle_radian(
+            redshift, cosmology=config.cosmology
+        )
+        max_angle = max(max_angle, ang_max.max())
+    return AngularDistances(max_angle)
 
 
 class PatchLinkage:
